@@ -462,7 +462,8 @@ def glue_contextlib() -> None:
                     # 3.7 used a wrapper function with a __self__ attribute
                     # for actual __exit__ invocations. Later versions use a method.
                     not isinstance(callback, types.MethodType)
-                    or callback.__func__.__name__ in ("__exit__", "__aexit__")
+                    or getattr(callback.__func__, "__name__", None)
+                    in ("__exit__", "__aexit__")
                 ):
                     # stack.enter_context(some_cm) or stack.push(some_cm)
                     tag = "" if is_sync else "await "
